@@ -17,6 +17,22 @@ CHECKS = {
             "Trusted: vlib/defs.py (set-based definitions), the spec builder; scopes of input layers are read "
             "from the symbolic layers.",
             "DESIGN.md section 4 C08"),
+    "C01": ("Hypothesis PBT: generated smooth&decomposable layer DAGs x semiring x fold x optimize x values x batch "
+            "class, differential against an independent numpy reference interpreter; metamorphic row-independence",
+            "Exploration: every generated circuit is compiled and its outputs compared with a numpy interpreter "
+            "of the symbolic circuit under the same parameter values, within a magnitude-aware float64 bound; "
+            "bounded by <= 5 variables, <= 3 units per layer (Kronecker up to 16), batch <= 8.",
+            "Trusted: vlib/ref.py (numpy interpreter written from the layer docstrings), vlib/tol.py tolerance model, "
+            "numpy/scipy arithmetic; values are written through compiler.state.retrieve_compiled_parameter.",
+            "DESIGN.md section 4 C01"),
+    "C14": ("Hypothesis PBT: shape-directed random parameter graphs over every node type, axis and fold count, "
+            "differential against numpy definitions of each node",
+            "Exploration: thousands of generated parameter graphs (single nodes and compositions, folded and "
+            "unfolded) per run compared with numpy definitions; bounded by rank <= 3, dims <= 4, depth <= 4, "
+            "<= 4 folds.",
+            "Trusted: vlib/ref.py eval_node definitions, conditioning-based tolerance; folding goes through the "
+            "private helper cirkit.backend.torch.compiler._fold_parameters.",
+            "DESIGN.md section 4 C14"),
 }
 
 NOT_APPLICABLE = {}
